@@ -184,10 +184,10 @@ def optCell (j : Json) : Option (Option (List Nat)) :=
   if j.isNull then some none else ((arr? j).bind (fun a => a.toList.mapM nat?)).map some
 
 /-- the specification side of a histogram case: every spec definition evaluated on the case -/
-def specJson (edges : Edges Int) (h0 : Hist Int Int) (fills : List Json)
+def specJson (full : Bool) (edges : Edges Int) (h0 : Hist Int Int) (fills : List Json)
     (ops : List ((Nat → Nat → Nat → Int) × Coord Int × Int)) : Json :=
   let axes := edges.axes
-  let perFill := (List.zip fills ops).map fun (f, (_, c, _)) =>
+  let perFill := (List.zip fills ops).map fun (f, (g, c, _)) =>
     match properList? edges c with
     | none => Json.mkObj [("proper", Json.bool false)]
     | some xs =>
@@ -196,7 +196,8 @@ def specJson (edges : Edges Int) (h0 : Hist Int Int) (fills : List Json)
         | _ => Json.null
       Json.mkObj [("proper", Json.bool true), ("ind", ofIntList (indices axes xs)),
                   ("inr", Json.bool (decide (InRange (indices axes xs) (dimsOf axes)))),
-                  ("cell", ofOpt (ofList ofNat) (cellOf? axes xs)), ("pc_incell", pc)]
+                  ("cell", ofOpt (ofList ofNat) (cellOf? axes xs)), ("pc_incell", pc),
+                  ("gokat", if full then Json.bool (guessesOKAtB axes xs g) else Json.null)]
   let pts : List (List Int × Int) := ops.filterMap fun (_, c, w) => (properList? edges c).map (fun xs => (xs, w))
   let wf := wfB h0
   let fin := specFillAll axes (h0.bins, h0.nOut) pts
@@ -242,7 +243,7 @@ def handle (j : Json) : Json :=
             | .error e => Json.mkObj [("e", exc e)]
             | .ok ha => Json.mkObj [("bins", narrJson ha.bins), ("oor", ofInt ha.nOut)]
           Json.mkObj [("steps", Json.arr steps.toArray), ("bins", narrJson hf.bins), ("oor", ofInt hf.nOut),
-                      ("all", all), ("spec", specJson edges h fills.toList ops)]
+                      ("all", all), ("spec", specJson ((bool? (getD j "full")).getD false) edges h fills.toList ops)]
         | none => err "bad fills"
     | _, _, _, _ => err "bad hist args"
   | some "elem" =>
@@ -265,10 +266,13 @@ def handle (j : Json) : Json :=
   | some "initbins" =>
     match parseEdges (getD j "edges"), int? (getD j "init"), bool? (getD j "deep") with
     | some edges, some init, some deep =>
+      let chk : Json := match checkEdgesIncreasing edges with
+        | .ok _ => "ok"
+        | .error e => exc e
       match initBinsD deep init edges with
       | .ok b => Json.mkObj [("bins", narrJson b), ("full", narrJson (NArr.full (dimsOf edges.axes) init)),
-                             ("valid", Json.bool (decide (ValidEdges edges)))]
-      | .error e => Json.mkObj [("e", exc e)]
+                             ("valid", Json.bool (decide (ValidEdges edges))), ("chk", chk)]
+      | .error e => Json.mkObj [("e", exc e), ("chk", chk)]
     | _, _, _ => err "bad initbins args"
   | some "elem2" =>
     match parseEdges (getD j "edges"), parseBins (getD j "bins"), parseBins (getD j "mk"), int? (getD j "init"),
